@@ -121,9 +121,25 @@ Definition five_normal (t : five) : five :=
          (match f_query t with Some q => Some (pct_norm false q) | None => None end)
          (match f_frag t with Some f => Some (pct_norm false f) | None => None end).
 
-(* as for resolution, a host-less normal form whose path begins with "//" is guarded by "/." so that
-   the text is not read back as an authority *)
-Definition normal_text (s : text) : text := recompose (guard_slashes (five_normal (five_of_text s))).
+(* As for resolution, a host-less normal form must not be written with "//" in front (the text would be
+   read back with an authority): a single "." segment is placed in front of the path.  For a path that
+   was absolute this is "/." in front of a path text beginning with "//" (Spec.Resolve.guard_slashes).
+   A path that was rootless stays rootless: the "." becomes its first segment ("./" in front), where
+   its first two segments are empty -- the text begins with "//", or is "/" when there are only these
+   two.  (The second case arises only for a rootless path behind a scheme whose dot segments cancel in
+   front of an empty segment, "s:a/..//b": the corner RFC 3986 and the properties leave open, cf.
+   Spec.Resolve.unspecified_corner; a relative-path reference is already kept relative by
+   [rel_path_normal].) *)
+Definition is_rootless (p : text) : bool := match p with [] => false | _ => negb (head_is 47 p) end.
+Definition guard_path (rootless has_auth : bool) (p : text) : text :=
+  if has_auth then p
+  else if rootless then (if starts_with [47; 47] p || text_eqb p [47] then 46 :: 47 :: p else p)
+  else if starts_with [47; 47] p then 47 :: 46 :: p else p.
+Definition guard_normal (orig t : five) : five :=
+  mkFive (f_scheme t) (f_auth t) (guard_path (is_rootless (f_path orig)) (is_some_t (f_auth t)) (f_path t))
+         (f_query t) (f_frag t).
+Definition normal_text (s : text) : text :=
+  let f := five_of_text s in recompose (guard_normal f (five_normal f)).
 
 (* the three shapes in which uriparser 0.9.8 leaves the specification (relative-path references only) *)
 Definition rel_path_ref (t : five) : bool :=
